@@ -411,3 +411,483 @@ Proof.
     + intros r rv x Hin Hne. apply in_app_or in Hin as [X|[X|[]]]; [now apply FO|]. inversion X; subst. contradiction.
     + intros X. exfalso. apply in_app_or in X as [X|[X|[]]]; [apply FO in X; destruct X as (_ & X & _); discriminate|discriminate].
 Qed.
+
+(* ================================================================ the deadline *)
+Definition timed_out (c : sctx) : sctx := mkSctx 0 (sc_lmq c) [] (sc_stime c) (sc_expire c).
+Lemma expire_ctxs_get now l k c :
+  kget k l = Some c ->
+  kget k (fst (expire_ctxs now l)) =
+    Some (match sc_rq c with [] => c | _ => if (sc_expire c <? Z.of_N now)%Z then timed_out c else c end).
+Proof.
+  induction l as [|[k0 c0] l IH]; cbn [kget expire_ctxs]; [discriminate|].
+  destruct (expire_ctxs now l) as [r' o] eqn:E. cbn [fst] in IH.
+  destruct (N.eqb_spec k0 k).
+  - intros H. inversion H; subst. destruct (sc_rq c); cbn [fst kget]; [now rewrite N.eqb_refl|].
+    destruct (sc_expire c <? Z.of_N now)%Z; cbn [fst kget]; now rewrite N.eqb_refl.
+  - intros H. specialize (IH H).
+    destruct (sc_rq c0); cbn [fst kget]; [destruct (N.eqb_spec k0 k); [contradiction|exact IH]|].
+    destruct (sc_expire c0 <? Z.of_N now)%Z; cbn [fst kget]; destruct (N.eqb_spec k0 k); try contradiction; exact IH.
+Qed.
+Lemma expire_ctxs_outs now l k c a :
+  In (k, c) l -> In a (sc_rq c) -> (sc_expire c < Z.of_N now)%Z ->
+  In (Complete a E_TIMEDOUT None) (snd (expire_ctxs now l)).
+Proof.
+  induction l as [|[k0 c0] l IH]; cbn [expire_ctxs]; [contradiction|].
+  destruct (expire_ctxs now l) as [r' o] eqn:E. cbn [snd] in IH. intros [X|X] Ha Hl.
+  - inversion X; subst. destruct (sc_rq c) eqn:RQ; [contradiction|]. apply Z.ltb_lt in Hl. rewrite Hl. cbn [snd].
+    apply in_or_app. left. unfold fail_aios. apply in_map_iff. eauto.
+  - specialize (IH X Ha Hl). destruct (sc_rq c0); cbn [snd]; auto.
+    destruct (sc_expire c0 <? Z.of_N now)%Z; cbn [snd]; auto. apply in_or_app. now right.
+Qed.
+Lemma expire_ctxs_only_timeouts now l a rv x :
+  In (Complete a rv x) (snd (expire_ctxs now l)) ->
+  rv = E_TIMEDOUT /\ x = None /\ exists k c, In (k, c) l /\ In a (sc_rq c) /\ (sc_expire c < Z.of_N now)%Z.
+Proof.
+  induction l as [|[k0 c0] l IH]; cbn [expire_ctxs]; [cbn; contradiction|].
+  destruct (expire_ctxs now l) as [r' o] eqn:E. cbn [snd] in IH.
+  assert (R: In (Complete a rv x) o -> rv = E_TIMEDOUT /\ x = None /\ exists k c, In (k, c) ((k0, c0) :: l) /\ In a (sc_rq c) /\ (sc_expire c < Z.of_N now)%Z).
+  { intros H. destruct (IH H) as (A & B & k & c & C & D & F). repeat split; auto. exists k, c. split; [now right|auto]. }
+  destruct (sc_rq c0) eqn:RQ; cbn [snd]; [exact R|].
+  destruct (sc_expire c0 <? Z.of_N now)%Z eqn:LT; cbn [snd]; [|exact R].
+  intros H. apply in_app_or in H as [H|H]; [|now apply R].
+  unfold fail_aios in H. apply in_map_iff in H as (y & Ey & Hy). inversion Ey; subst.
+  repeat split; auto. exists k0, c0. split; [now left|]. rewrite RQ. split; [exact Hy|]. now apply Z.ltb_lt.
+Qed.
+
+(* the expiry event (the clock is past the deadline): every receive still pending on the context
+   completes with NNG_ETIMEDOUT and the survey id is retired; nothing is delivered by this step *)
+Theorem surv_pending_times_out fx s now k c a s' outs :
+  kget k (sv_ctxs s) = Some c -> In a (sc_rq c) -> (sc_expire c < Z.of_N now)%Z ->
+  surv_step fx s (PTick now) = (s', outs) ->
+  In (Complete a E_TIMEDOUT None) outs /\
+  (exists c', kget k (sv_ctxs s') = Some c' /\ sc_survey c' = 0%N /\ sc_rq c' = []) /\
+  (forall a' rv x, In (Complete a' rv x) outs -> rv = E_TIMEDOUT /\ x = None).
+Proof.
+  intros H Ha Hl St. cbn [surv_step] in St.
+  pose proof (expire_ctxs_get now _ _ _ H) as G. pose proof (expire_ctxs_outs now _ _ _ a (kget_in _ _ _ H) Ha Hl) as O.
+  pose proof (fun a' rv x => expire_ctxs_only_timeouts now (sv_ctxs s) a' rv x) as T.
+  destruct (expire_ctxs now (sv_ctxs s)) as [cs o]. cbn [fst snd] in *. inversion St; subst. cbn [sv_ctxs].
+  split; [exact O|]. split.
+  - eexists. split; [exact G|]. destruct (sc_rq c) eqn:RQ; [contradiction|]. apply Z.ltb_lt in Hl. rewrite Hl. cbn. auto.
+  - intros a' rv x Hin. destruct (T a' rv x Hin) as (A & B & _). auto.
+Qed.
+
+(* ================================================================ invariant: queued responses carry the context's current id *)
+Definition CInv (c : sctx) : Prop :=
+  (sc_rq c <> [] -> sc_lmq c = []) /\
+  (forall m, In m (sc_lmq c) -> hdr_id (pm_hdr m) = sc_survey c /\ sc_survey c <> 0%N).
+Definition SInv (s : surv) : Prop :=
+  NoDup (map fst (sv_ctxs s)) /\ forall k c, In (k, c) (sv_ctxs s) -> CInv c.
+
+(* the environment's contract: transports deliver whole wire messages in the body *)
+Definition surv_op_ok (o : pop) : Prop :=
+  match o with PRecvDone _ rv m => rv = 0%N -> pm_hdr m = [] | _ => True end.
+
+Lemma cinv_zero c : CInv (mkSctx 0 [] [] (sc_stime c) (sc_expire c)).
+Proof. split; cbn; [auto|contradiction]. Qed.
+Lemma in_kset_weak {A} k (v : A) l k' v' : In (k', v') (kset k v l) -> v' = v \/ In (k', v') l.
+Proof.
+  induction l as [|[k0 v0] l IH]; cbn; intros H.
+  - destruct H as [H|[]]. inversion H; auto.
+  - destruct (N.eqb_spec k0 k).
+    + destruct H as [H|H]; [inversion H; auto|]. right. now right.
+    + destruct H as [H|H]; [right; now left|]. destruct (IH H); auto.
+Qed.
+Lemma sinv_kset s k v : SInv s -> CInv v -> SInv (set_ctxs s (kset k v (sv_ctxs s))).
+Proof.
+  intros [ND H] Hv. split; cbn [sv_ctxs set_ctxs]; [now apply nodup_kset|].
+  intros k' c' Hin. apply in_kset_weak in Hin as [->|Hin]; eauto.
+Qed.
+Lemma expire_ctxs_keys now l : map fst (fst (expire_ctxs now l)) = map fst l.
+Proof.
+  induction l as [|[k c] l IH]; cbn [expire_ctxs]; [reflexivity|]. destruct (expire_ctxs now l) as [r o]. cbn [fst] in IH.
+  destruct (sc_rq c); cbn [fst map]; [now rewrite IH|]. destruct (sc_expire c <? Z.of_N now)%Z; cbn [fst map]; now rewrite IH.
+Qed.
+Lemma expire_ctxs_in now l k c' :
+  In (k, c') (fst (expire_ctxs now l)) -> exists c, In (k, c) l /\ (c' = c \/ (sc_rq c <> [] /\ c' = timed_out c)).
+Proof.
+  induction l as [|[k0 c0] l IH]; cbn [expire_ctxs]; [cbn; contradiction|]. destruct (expire_ctxs now l) as [r o]. cbn [fst] in IH.
+  assert (R: In (k, c') r -> exists c, In (k, c) ((k0, c0) :: l) /\ (c' = c \/ (sc_rq c <> [] /\ c' = timed_out c))).
+  { intros H. destruct (IH H) as (c & A & B). exists c. split; [now right|auto]. }
+  destruct (sc_rq c0) eqn:RQ; cbn [fst].
+  - intros [X|X]; [inversion X; subst; exists c'; split; [now left|auto]|auto].
+  - destruct (sc_expire c0 <? Z.of_N now)%Z; cbn [fst]; intros [X|X]; auto.
+    + inversion X; subst. exists c0. split; [now left|]. right. split; [congruence|reflexivity].
+    + inversion X; subst. exists c'. split; [now left|auto].
+Qed.
+Lemma cancel_ctxs_keys a rv l : map fst (fst (cancel_ctxs a rv l)) = map fst l.
+Proof.
+  induction l as [|[k c] l IH]; cbn [cancel_ctxs]; [reflexivity|]. destruct (has_id a (sc_rq c)); cbn [fst map]; [reflexivity|].
+  destruct (cancel_ctxs a rv l) as [r o]. cbn [fst map] in *. now rewrite IH.
+Qed.
+Lemma cancel_ctxs_in a rv l k c' :
+  In (k, c') (fst (cancel_ctxs a rv l)) ->
+  exists c, In (k, c) l /\ (c' = c \/ (sc_rq c <> [] /\ c' = mkSctx 0 (sc_lmq c) (remove_id a (sc_rq c)) (sc_stime c) (sc_expire c))).
+Proof.
+  induction l as [|[k0 c0] l IH]; cbn [cancel_ctxs]; [cbn; contradiction|].
+  destruct (has_id a (sc_rq c0)) eqn:HA; cbn [fst].
+  - intros [X|X].
+    + inversion X; subst. exists c0. split; [now left|]. right. split; [|reflexivity].
+      intros E. rewrite E in HA. discriminate.
+    + exists c'. split; [now right|auto].
+  - destruct (cancel_ctxs a rv l) as [r o]. cbn [fst] in *. intros [X|X].
+    + inversion X; subst. exists c'. split; [now left|auto].
+    + destruct (IH X) as (c & A & B). exists c. split; [now right|auto].
+Qed.
+Lemma cinv_retire c rq' : CInv c -> sc_rq c <> [] -> CInv (mkSctx 0 (sc_lmq c) rq' (sc_stime c) (sc_expire c)).
+Proof. intros [A B] H. rewrite (A H). split; cbn; [auto|contradiction]. Qed.
+
+Theorem surv_step_inv fx s o s' outs : SInv s -> surv_op_ok o -> surv_step fx s o = (s', outs) -> SInv s'.
+Proof.
+  intros HI Hok St. pose proof HI as [ND HC].
+  destruct o as [c a nb m|c a nb|a rv|p peer|p|p rv|p rv m|c op|c|c| |now]; cbn [surv_step] in St.
+  - (* PSend *)
+    destruct (kget (ckey c) (sv_ctxs s)) as [cx|] eqn:G; [|inversion St; subst; exact HI]. cbn [ctx_abort] in St.
+    set (cx1 := mkSctx 0 [] [] (sc_stime cx) (sc_expire cx)) in *.
+    pose proof (sinv_kset s (ckey c) cx1 HI (cinv_zero cx)) as H1. cbn [sv_ctxs set_ctxs] in St.
+    destruct (id_alloc _ _ _) as [[id cur']|].
+    + destruct (fanout _ _) as [pipes' tx]. inversion St; subst. destruct H1 as [ND1 HC1]. cbn [sv_ctxs set_ctxs] in *.
+      split; cbn [sv_ctxs]; [now apply nodup_kset|]. intros k' c' Hin. apply in_kset_weak in Hin as [->|Hin]; eauto.
+      split; cbn; [auto|contradiction].
+    + inversion St; subst. exact H1.
+  - (* PRecv *)
+    destruct (kget (ckey c) (sv_ctxs s)) as [cx|] eqn:G; [|inversion St; subst; exact HI].
+    destruct (_ || _); [inversion St; subst; exact HI|].
+    pose proof (HC _ _ (kget_in _ _ _ G)) as [CA CB].
+    destruct (sc_lmq cx) as [|m0 r] eqn:L.
+    + destruct (nb && fx); inversion St; subst; [exact HI|]. apply sinv_kset; auto.
+      split; cbn; [auto|contradiction].
+    + assert (SI: SInv (set_ctxs s (kset (ckey c) (mkSctx (sc_survey cx) r (sc_rq cx) (sc_stime cx) (sc_expire cx)) (sv_ctxs s)))).
+      { apply sinv_kset; auto. split; cbn.
+        - intros H. specialize (CA H). discriminate.
+        - intros m1 Hm. apply CB. now right. }
+      destruct (isnil r && (ckey c =? 0)%N); inversion St; subst; exact SI.
+  - (* PCancel *)
+    pose proof (cancel_ctxs_keys a rv (sv_ctxs s)) as K. pose proof (fun k c' => cancel_ctxs_in a rv (sv_ctxs s) k c') as I.
+    destruct (cancel_ctxs a rv (sv_ctxs s)) as [cs o]. cbn [fst] in *. inversion St; subst. split; cbn [sv_ctxs set_ctxs].
+    + now rewrite K.
+    + intros k c' Hin. destruct (I k c' Hin) as (c0 & A & [->|[B ->]]); eauto. apply cinv_retire; eauto.
+  - (* PPipeStart *) destruct (negb _); inversion St; subst; exact HI.
+  - (* PPipeClose *) destruct (kget p (sv_pipes s)); inversion St; subst; exact HI.
+  - (* PSendDone *)
+    destruct (kget p (sv_pipes s)) as [x|]; [|inversion St; subst; exact HI].
+    destruct (negb _); [inversion St; subst; exact HI|]. destruct (sp_closed x); [inversion St; subst; exact HI|].
+    destruct (sp_q x); inversion St; subst; exact HI.
+  - (* PRecvDone *)
+    destruct (N.eqb_spec rv 0) as [->|]; cbn [negb] in St; [|inversion St; subst; exact HI].
+    cbn in Hok. specialize (Hok eq_refl).
+    destruct (surv_recv (pm_body m)) as [[[id h] b]|] eqn:SR; [|inversion St; subst; exact HI].
+    destruct (find_owner id (sv_ctxs s)) as [[k c]|] eqn:FO; [|inversion St; subst; exact HI].
+    destruct (find_owner_some _ _ _ _ FO) as (E1 & E2 & E3). pose proof (HC _ _ E3) as [CA CB].
+    destruct (_ <=? _); [inversion St; subst; exact HI|].
+    destruct (sc_rq c) as [|a r] eqn:RQ.
+    + assert (SI: SInv (set_ctxs s (kset k (mkSctx (sc_survey c) (sc_lmq c ++ [mkPmsg (pm_hdr m ++ h) b]) [] (sc_stime c) (sc_expire c)) (sv_ctxs s)))).
+      { apply sinv_kset; auto. split; cbn; [congruence|].
+        intros m1 Hm. apply in_app_or in Hm as [Hm|[<-|[]]]; [auto|]. cbn [pm_hdr]. rewrite Hok. cbn [app].
+        split; [|congruence]. rewrite E1.
+        destruct (pm_body m) as [|b0 [|b1 [|b2 [|b3 rest]]]]; cbn in SR; try discriminate. inversion SR; subst. reflexivity. }
+      destruct (k =? 0)%N; inversion St; subst; exact SI.
+    + inversion St; subst. apply sinv_kset; auto. assert (L: sc_lmq c = []) by (apply CA; congruence).
+      rewrite L. split; cbn; [auto|contradiction].
+  - (* PSetOpt *)
+    destruct op; try (destruct c; inversion St; subst; exact HI).
+    + destruct c; [inversion St; subst; exact HI|]. destruct (_ <? _)%N; inversion St; subst; exact HI.
+    + destruct c; [inversion St; subst; exact HI|]. destruct (_ <? _)%N; inversion St; subst; exact HI.
+    + destruct c; [inversion St; subst; exact HI|]. destruct (_ && _); inversion St; subst; [|exact HI]. exact HI.
+    + destruct (ms <? -1)%Z; [destruct c; inversion St; subst; exact HI|].
+      assert (G: forall k, (match kget k (sv_ctxs s) with
+                | Some cx => (set_ctxs s (kset k (mkSctx (sc_survey cx) (sc_lmq cx) (sc_rq cx) ms (sc_expire cx)) (sv_ctxs s)), [OptRv E_OK])
+                | None => (s, [OptRv E_CLOSED]) end) = (s', outs) -> SInv s').
+      { intros k G. destruct (kget k (sv_ctxs s)) as [cx|] eqn:GE; inversion G; subst; [|exact HI].
+        apply sinv_kset; auto. exact (HC _ _ (kget_in _ _ _ GE)). }
+      destruct c; apply (G _ St).
+  - (* PCtxOpen *) inversion St; subst. apply sinv_kset; auto. split; cbn; [auto|contradiction].
+  - (* PCtxClose *)
+    destruct (kget (ckey (Some c)) (sv_ctxs s)); inversion St; subst; [|exact HI].
+    split; cbn [sv_ctxs set_ctxs]; [now apply nodup_kdel|]. intros k c' Hin. apply in_kdel in Hin as [_ Hin]. eauto.
+  - (* PSockClose *)
+    destruct (kget 0%N (sv_ctxs s)) as [cx|]; inversion St; subst; [|exact HI].
+    pose proof (sinv_kset s 0%N _ HI (cinv_zero cx)) as [A B]. split; exact A || exact B.
+  - (* PTick *)
+    pose proof (expire_ctxs_keys now (sv_ctxs s)) as K. pose proof (fun k c' => expire_ctxs_in now (sv_ctxs s) k c') as I.
+    destruct (expire_ctxs now (sv_ctxs s)) as [cs o]. cbn [fst] in *. inversion St; subst. split; cbn [sv_ctxs].
+    + now rewrite K.
+    + intros k c' Hin. destruct (I k c' Hin) as (c0 & A & [->|[B ->]]); eauto. apply cinv_retire; eauto.
+Qed.
+
+Lemma surv_init_inv : SInv surv_init.
+Proof.
+  split; cbn; [constructor; [tauto|constructor]|]. intros k c [H|[]]. inversion H; subst. split; cbn; [auto|contradiction].
+Qed.
+
+(* ================================================================ only the current survey's responses reach the application *)
+Definition no_msg (outs : list pout) : Prop := forall a rv m, ~ In (Complete a rv (Some m)) outs.
+Lemma no_msg_app a b : no_msg a -> no_msg b -> no_msg (a ++ b).
+Proof. intros A B x rv m H. apply in_app_or in H as [H|H]; [eapply A|eapply B]; eauto. Qed.
+Lemma no_msg_fail rv l : no_msg (fail_aios rv l).
+Proof. intros a r m H. unfold fail_aios in H. apply in_map_iff in H as (y & E & _). discriminate. Qed.
+Lemma no_msg_free l : no_msg (map Free l).
+Proof. intros a r m H. apply in_map_iff in H as (y & E & _). discriminate. Qed.
+Lemma no_msg_nil : no_msg []. Proof. intros a r m []. Qed.
+Lemma no_msg_fanout m0 l : no_msg (snd (fanout m0 l)).
+Proof. intros a r m H. eapply fanout_no_complete; eauto. Qed.
+Lemma no_msg_cancel a rv l : no_msg (snd (cancel_ctxs a rv l)).
+Proof.
+  induction l as [|[k c] l IH]; cbn [cancel_ctxs]; [apply no_msg_nil|]. destruct (has_id a (sc_rq c)); cbn [snd].
+  - intros x r m [H|[]]. discriminate.
+  - destruct (cancel_ctxs a rv l). exact IH.
+Qed.
+Lemma no_msg_expire now l : no_msg (snd (expire_ctxs now l)).
+Proof. intros a r m H. apply expire_ctxs_only_timeouts in H as (_ & H & _). discriminate. Qed.
+Ltac nm := repeat first [apply no_msg_app | apply no_msg_fail | apply no_msg_free | apply no_msg_nil
+                        | (intros ? ? ? [X|[]]; discriminate) | (intros ? ? ? [X|[X|[]]]; discriminate) ].
+
+Lemma surv_setopt_outs fx s c op s' outs : surv_step fx s (PSetOpt c op) = (s', outs) -> exists rv, outs = [OptRv rv].
+Proof.
+  cbn [surv_step]. destruct op; destruct c as [c|]; cbn [ckey];
+    repeat match goal with
+           | |- context [if ?b then _ else _] => destruct b
+           | |- context [match kget ?k ?l with _ => _ end] => destruct (kget k l)
+           end; intros H; inversion H; eauto.
+Qed.
+
+(* whatever the step, a message handed to the application (a) carries the current, live survey id of the
+   context that receives it, and (b) goes either to the receive being posted on that context -- then the
+   deadline has not passed -- or to that context's oldest pending receive *)
+Theorem surv_delivery_only_current fx s o s' outs a m :
+  SInv s -> surv_op_ok o -> surv_step fx s o = (s', outs) -> In (Complete a E_OK (Some m)) outs ->
+  exists k c, kget k (sv_ctxs s) = Some c /\ sc_survey c <> 0%N /\ hdr_id (pm_hdr m) = sc_survey c /\
+    ((exists cc nb, o = PRecv cc a nb /\ ckey cc = k /\ (Z.of_N (sv_now s) < sc_expire c)%Z) \/
+     (exists r p rv w, sc_rq c = a :: r /\ o = PRecvDone p rv w)).
+Proof.
+  intros HI Hok St Hin. pose proof HI as [ND HC].
+  assert (NM: forall l, no_msg l -> outs = l -> False) by (intros l H ->; eapply H; eauto).
+  destruct o as [c a0 nb m0|c a0 nb|a0 rv|p peer|p|p rv|p rv m0|c op|c|c| |now]; cbn [surv_step] in St.
+  - exfalso. destruct (kget (ckey c) (sv_ctxs s)) as [cx|]; [|inversion St; subst; eapply NM; [|reflexivity]; nm].
+    cbn [ctx_abort] in St. destruct (id_alloc _ _ _) as [[id cur']|].
+    + pose proof (no_msg_fanout (mkPmsg (be32 id) (pm_body m0)) (sv_pipes s)) as F.
+      destruct (fanout _ _) as [pipes' tx]. cbn [snd] in F. inversion St; subst. eapply NM; [|reflexivity]. nm. exact F.
+    + inversion St; subst. eapply NM; [|reflexivity]. nm.
+  - destruct (kget (ckey c) (sv_ctxs s)) as [cx|] eqn:G; [|exfalso; inversion St; subst; eapply NM; [|reflexivity]; nm].
+    destruct (N.eqb_spec (sc_survey cx) 0) as [|NZ]; cbn [orb] in St; [exfalso; inversion St; subst; eapply NM; [|reflexivity]; nm|].
+    destruct (sc_expire cx <=? Z.of_N (sv_now s))%Z eqn:EX; [exfalso; inversion St; subst; eapply NM; [|reflexivity]; nm|].
+    destruct (sc_lmq cx) as [|m1 r] eqn:L.
+    + exfalso. destruct (nb && fx); inversion St; subst; eapply NM; try reflexivity; nm.
+    + assert (O: outs = [Complete a0 E_OK (Some m1)]) by (destruct (isnil r && (ckey c =? 0)%N); inversion St; auto).
+      subst outs. destruct Hin as [X|[]]. inversion X; subst.
+      pose proof (HC _ _ (kget_in _ _ _ G)) as [_ CB]. destruct (CB m ltac:(rewrite L; now left)) as [B1 B2].
+      exists (ckey c), cx. repeat split; auto. left. exists c, nb. repeat split; auto. apply Z.leb_gt in EX. lia.
+  - exfalso. pose proof (no_msg_cancel a0 rv (sv_ctxs s)) as F. destruct (cancel_ctxs a0 rv (sv_ctxs s)). inversion St; subst. eapply NM; eauto.
+  - exfalso. destruct (negb _); inversion St; subst; eapply NM; try reflexivity; nm.
+  - exfalso. destruct (kget p (sv_pipes s)); inversion St; subst; eapply NM; try reflexivity; nm.
+  - exfalso. destruct (kget p (sv_pipes s)) as [x|]; [|inversion St; subst; eapply NM; try reflexivity; nm].
+    destruct (negb _); [inversion St; subst; eapply NM; try reflexivity; nm|].
+    destruct (sp_closed x); [inversion St; subst; eapply NM; try reflexivity; nm|].
+    destruct (sp_q x); inversion St; subst; eapply NM; try reflexivity; nm.
+  - destruct (N.eqb_spec rv 0) as [->|]; cbn [negb] in St; [|exfalso; inversion St; subst; eapply NM; try reflexivity; nm].
+    cbn in Hok. specialize (Hok eq_refl).
+    destruct (surv_recv (pm_body m0)) as [[[id h] b]|] eqn:SR; [|exfalso; inversion St; subst; eapply NM; try reflexivity; nm].
+    destruct (find_owner id (sv_ctxs s)) as [[k c]|] eqn:FO; [|exfalso; inversion St; subst; eapply NM; try reflexivity; nm].
+    destruct (find_owner_some _ _ _ _ FO) as (E1 & E2 & E3).
+    destruct (_ <=? _); [exfalso; inversion St; subst; eapply NM; try reflexivity; nm|].
+    destruct (sc_rq c) as [|a1 r] eqn:RQ.
+    + exfalso. destruct (k =? 0)%N; inversion St; subst; eapply NM; try reflexivity; nm.
+    + inversion St; subst. destruct Hin as [X|[X|[]]]; [|discriminate]. inversion X; subst.
+      exists k, c. split; [now apply in_kget|]. split; [congruence|]. split.
+      * cbn [pm_hdr]. rewrite Hok. cbn [app].
+        destruct (pm_body m0) as [|b0 [|b1 [|b2 [|b3 rest]]]]; cbn in SR; try discriminate. inversion SR; subst. reflexivity.
+      * right. exists r, p, 0%N, m0. auto.
+  - exfalso. destruct (surv_setopt_outs fx s c op s' outs St) as [rv0 ->]. destruct Hin as [X|[]]. discriminate.
+  - exfalso. inversion St; subst. eapply NM; try reflexivity; nm.
+  - exfalso. destruct (kget (ckey (Some c)) (sv_ctxs s)); inversion St; subst; eapply NM; try reflexivity; nm.
+  - exfalso. destruct (kget 0%N (sv_ctxs s)); inversion St; subst; eapply NM; try reflexivity; nm.
+  - exfalso. pose proof (no_msg_expire now (sv_ctxs s)) as F. destruct (expire_ctxs now (sv_ctxs s)). inversion St; subst. eapply NM; eauto.
+Qed.
+
+(* ================================================================ late responses *)
+(* a context is past its deadline with nothing pending: its survey is over as far as the application goes *)
+Definition dead_ctx (s : surv) (k : N) : Prop :=
+  forall c, kget k (sv_ctxs s) = Some c -> sc_rq c = [] /\ (sc_expire c <= Z.of_N (sv_now s))%Z.
+Definition time_ok (s : surv) (o : pop) : Prop := match o with PTick now => (sv_now s <= now)%N | _ => True end.
+Definition is_send_on (k : N) (o : pop) : Prop := exists c a nb m, o = PSend c a nb m /\ ckey c = k.
+Definition is_open_of (k : N) (o : pop) : Prop := exists c, o = PCtxOpen c /\ ckey (Some c) = k.
+
+(* ... it stays over until the application sends a new survey on that context, whatever arrives ... *)
+Theorem surv_dead_stable fx s o s' outs k :
+  SInv s -> dead_ctx s k -> time_ok s o -> ~ is_send_on k o -> ~ is_open_of k o ->
+  surv_step fx s o = (s', outs) -> dead_ctx s' k.
+Proof.
+  intros HI HD HT NS NO St. pose proof HI as [ND HC]. unfold dead_ctx in *.
+  destruct o as [c a0 nb m0|c a0 nb|a0 rv|p peer|p|p rv|p rv m0|c op|c|c| |now]; cbn [surv_step] in St.
+  - destruct (kget (ckey c) (sv_ctxs s)) as [cx|] eqn:G; [|inversion St; subst; exact HD]. cbn [ctx_abort] in St.
+    assert (NK: ckey c <> k) by (intros E; apply NS; exists c, a0, nb, m0; auto).
+    destruct (id_alloc _ _ _) as [[id cur']|].
+    + destruct (fanout _ _) as [pipes' tx]. inversion St; subst. cbn [sv_ctxs sv_now]. intros c0 G0.
+      rewrite !kget_kset_neq in G0 by auto. auto.
+    + inversion St; subst. cbn [sv_ctxs sv_now set_ctxs set_readable]. intros c0 G0. rewrite kget_kset_neq in G0 by auto. auto.
+  - destruct (kget (ckey c) (sv_ctxs s)) as [cx|] eqn:G; [|inversion St; subst; exact HD].
+    destruct (N.eqb_spec (ckey c) k) as [E|NE].
+    + subst k. destruct (HD _ G) as [D1 D2]. apply Z.leb_le in D2. rewrite D2, orb_true_r in St. inversion St; subst. exact HD.
+    + destruct (_ || _); [inversion St; subst; exact HD|].
+      destruct (sc_lmq cx).
+      * destruct (nb && fx); inversion St; subst; [exact HD|]. cbn [sv_ctxs sv_now set_ctxs]. intros c0 G0. rewrite kget_kset_neq in G0 by auto. auto.
+      * assert (forall s1, s1 = set_ctxs s (kset (ckey c) (mkSctx (sc_survey cx) l (sc_rq cx) (sc_stime cx) (sc_expire cx)) (sv_ctxs s)) ->
+                 forall c0, kget k (sv_ctxs s1) = Some c0 -> sc_rq c0 = [] /\ (sc_expire c0 <= Z.of_N (sv_now s1))%Z) as R.
+        { intros s1 -> c0 G0. cbn [sv_ctxs sv_now set_ctxs] in *. rewrite kget_kset_neq in G0 by auto. auto. }
+        destruct (isnil l && (ckey c =? 0)%N); inversion St; subst; cbn [sv_ctxs sv_now set_readable]; eapply R; reflexivity.
+  - pose proof (fun k c' => cancel_ctxs_in a0 rv (sv_ctxs s) k c') as I. pose proof (cancel_ctxs_keys a0 rv (sv_ctxs s)) as K.
+    destruct (cancel_ctxs a0 rv (sv_ctxs s)) as [cs o]. cbn [fst] in *. inversion St; subst. cbn [sv_ctxs sv_now set_ctxs].
+    intros c0 G0. apply kget_in in G0. destruct (I _ _ G0) as (c1 & A & [->|[B ->]]).
+    + apply HD. now apply in_kget.
+    + exfalso. apply B. apply (HD c1). now apply in_kget.
+  - destruct (negb _); inversion St; subst; exact HD.
+  - destruct (kget p (sv_pipes s)); inversion St; subst; exact HD.
+  - destruct (kget p (sv_pipes s)) as [x|]; [|inversion St; subst; exact HD].
+    destruct (negb _); [inversion St; subst; exact HD|]. destruct (sp_closed x); [inversion St; subst; exact HD|].
+    destruct (sp_q x); inversion St; subst; exact HD.
+  - destruct (negb _); [inversion St; subst; exact HD|].
+    destruct (surv_recv (pm_body m0)) as [[[id h] b]|]; [|inversion St; subst; exact HD].
+    destruct (find_owner id (sv_ctxs s)) as [[k1 c1]|] eqn:FO; [|inversion St; subst; exact HD].
+    destruct (find_owner_some _ _ _ _ FO) as (E1 & E2 & E3). pose proof (in_kget _ _ _ ND E3) as G1.
+    destruct (_ <=? _); [inversion St; subst; exact HD|].
+    destruct (N.eqb_spec k1 k) as [E|NE].
+    + subst k1. destruct (HD _ G1) as [D1 D2]. rewrite D1 in St.
+      assert (forall s1, s1 = set_ctxs s (kset k (mkSctx (sc_survey c1) (sc_lmq c1 ++ [mkPmsg (pm_hdr m0 ++ h) b]) [] (sc_stime c1) (sc_expire c1)) (sv_ctxs s)) ->
+                 forall c0, kget k (sv_ctxs s1) = Some c0 -> sc_rq c0 = [] /\ (sc_expire c0 <= Z.of_N (sv_now s1))%Z) as R.
+      { intros s1 -> c0 G0. cbn [sv_ctxs sv_now set_ctxs] in *. rewrite kget_kset_eq in G0. inversion G0; subst. cbn. auto. }
+      destruct (k =? 0)%N; inversion St; subst; cbn [sv_ctxs sv_now set_readable]; eapply R; reflexivity.
+    + assert (forall cx', forall s1, s1 = set_ctxs s (kset k1 cx' (sv_ctxs s)) ->
+                 forall c0, kget k (sv_ctxs s1) = Some c0 -> sc_rq c0 = [] /\ (sc_expire c0 <= Z.of_N (sv_now s1))%Z) as R.
+      { intros cx' s1 -> c0 G0. cbn [sv_ctxs sv_now set_ctxs] in *. rewrite kget_kset_neq in G0 by auto. auto. }
+      destruct (sc_rq c1); [destruct (k1 =? 0)%N|]; inversion St; subst; cbn [sv_ctxs sv_now set_readable]; eapply R; reflexivity.
+  - destruct op; try (destruct c; inversion St; subst; exact HD).
+    + destruct c; [inversion St; subst; exact HD|]. destruct (_ <? _)%N; inversion St; subst; exact HD.
+    + destruct c; [inversion St; subst; exact HD|]. destruct (_ <? _)%N; inversion St; subst; exact HD.
+    + destruct c; [inversion St; subst; exact HD|]. destruct (_ && _); inversion St; subst; exact HD.
+    + destruct (ms <? -1)%Z; [destruct c; inversion St; subst; exact HD|].
+      assert (G: forall k1, (match kget k1 (sv_ctxs s) with
+                | Some cx => (set_ctxs s (kset k1 (mkSctx (sc_survey cx) (sc_lmq cx) (sc_rq cx) ms (sc_expire cx)) (sv_ctxs s)), [OptRv E_OK])
+                | None => (s, [OptRv E_CLOSED]) end) = (s', outs) ->
+                forall c0, kget k (sv_ctxs s') = Some c0 -> sc_rq c0 = [] /\ (sc_expire c0 <= Z.of_N (sv_now s'))%Z).
+      { intros k1 G. destruct (kget k1 (sv_ctxs s)) as [cx|] eqn:GE; inversion G; subst; [|exact HD].
+        cbn [sv_ctxs sv_now set_ctxs]. intros c0 G0. destruct (N.eqb_spec k1 k).
+        - subst. rewrite kget_kset_eq in G0. inversion G0; subst. cbn. auto.
+        - rewrite kget_kset_neq in G0 by auto. auto. }
+      destruct c; apply (G _ St).
+  - inversion St; subst. cbn [sv_ctxs sv_now set_ctxs]. intros c0 G0.
+    rewrite kget_kset_neq in G0; [auto|]. intros E. apply NO. exists c. auto.
+  - destruct (kget (ckey (Some c)) (sv_ctxs s)); inversion St; subst; [|exact HD]. cbn [sv_ctxs sv_now set_ctxs].
+    intros c0 G0. apply kget_in in G0. apply in_kdel in G0 as [_ G0]. apply HD. now apply in_kget.
+  - destruct (kget 0%N (sv_ctxs s)) as [cx|] eqn:G0; inversion St; subst; [|exact HD]. cbn [sv_ctxs sv_now set_ctxs set_readable].
+    intros c0 G1. destruct (N.eqb_spec 0 k).
+    + subst. rewrite kget_kset_eq in G1. inversion G1; subst. cbn. split; [auto|]. apply (HD _ G0).
+    + rewrite kget_kset_neq in G1 by auto. auto.
+  - pose proof (fun k c' => expire_ctxs_in now (sv_ctxs s) k c') as I.
+    destruct (expire_ctxs now (sv_ctxs s)) as [cs o]. cbn [fst] in *. inversion St; subst. cbn [sv_ctxs sv_now].
+    cbn in HT. intros c0 G0. apply kget_in in G0. destruct (I _ _ G0) as (c1 & A & [->|[B ->]]).
+    + destruct (HD c1 (in_kget _ _ _ ND A)). split; [auto|lia].
+    + exfalso. apply B. apply (HD c1). now apply in_kget.
+Qed.
+
+(* ... and in that state no step hands that context a message (a receive answers NNG_ESTATE; a response
+   with its id is at most queued) *)
+Theorem surv_dead_no_delivery fx s o s' outs k a m :
+  SInv s -> surv_op_ok o -> dead_ctx s k -> surv_step fx s o = (s', outs) ->
+  In (Complete a E_OK (Some m)) outs ->
+  forall c, kget k (sv_ctxs s) = Some c ->
+    ~ In a (sc_rq c) /\ (forall cc nb, o = PRecv cc a nb -> ckey cc <> k).
+Proof.
+  intros HI Hok HD St Hin c G. destruct (HD _ G) as [D1 D2]. split; [rewrite D1; tauto|].
+  intros cc nb -> E. subst k.
+  destruct (surv_delivery_only_current _ _ _ _ _ _ _ HI Hok St Hin) as (k' & c' & G' & _ & _ & [(cc' & nb' & X & Y & Z)|(r & p & rv & w & _ & X)]); [|discriminate].
+  inversion X; subst. rewrite G in G'. inversion G'; subst. lia.
+Qed.
+
+(* histories *)
+Fixpoint surv_run (fx : bool) (s : surv) (ops : list pop) : surv * list (pop * surv * list pout) :=
+  match ops with
+  | [] => (s, [])
+  | o :: r => let (s1, outs) := surv_step fx s o in let (s2, tr) := surv_run fx s1 r in (s2, (o, s, outs) :: tr)
+  end.
+Fixpoint surv_ops_ok (fx : bool) (s : surv) (k : N) (ops : list pop) : Prop :=
+  match ops with
+  | [] => True
+  | o :: r => surv_op_ok o /\ time_ok s o /\ ~ is_send_on k o /\ ~ is_open_of k o /\ surv_ops_ok fx (fst (surv_step fx s o)) k r
+  end.
+
+(* once a survey's deadline has passed with no receive pending (in particular after the expiry event
+   completed the pending ones), no history without a new survey on that context delivers anything to it:
+   late responses, however many and whatever their ids, are never handed to the application *)
+Theorem surv_late_never_delivered fx ops : forall s k,
+  SInv s -> dead_ctx s k -> surv_ops_ok fx s k ops ->
+  forall o s1 outs a m, In (o, s1, outs) (snd (surv_run fx s ops)) -> In (Complete a E_OK (Some m)) outs ->
+  forall c, kget k (sv_ctxs s1) = Some c -> ~ In a (sc_rq c) /\ (forall cc nb, o = PRecv cc a nb -> ckey cc <> k).
+Proof.
+  induction ops as [|o r IH]; intros s k HI HD Hok o1 s1 outs a m Hin.
+  { cbn in Hin. contradiction. }
+  cbn [surv_run] in Hin.
+  cbn [surv_ops_ok] in Hok. destruct Hok as (O1 & O2 & O3 & O4 & O5).
+  destruct (surv_step fx s o) as [s2 outs2] eqn:St. cbn [fst] in O5.
+  destruct (surv_run fx s2 r) as [s3 tr] eqn:R. cbn [snd] in Hin. destruct Hin as [X|X].
+  - inversion X; subst. intros Hc c G. exact (surv_dead_no_delivery fx s1 o1 s2 outs k a m HI O1 HD St Hc c G).
+  - assert (HI2: SInv s2) by (eapply surv_step_inv; eauto).
+    assert (HD2: dead_ctx s2 k) by exact (surv_dead_stable fx s o s2 outs2 k HI HD O2 O3 O4 St).
+    specialize (IH s2 k HI2 HD2 O5 o1 s1 outs a m). rewrite R in IH. cbn [snd] in IH. exact (IH X).
+Qed.
+
+(* ================================================================ fan-out *)
+(* a survey is offered to every pipe on s->pipes exactly once, in list order: an idle pipe gets it at
+   once (and becomes busy), a busy pipe with room queues it, a busy pipe whose queue is full does not
+   get it (the drop rule as coded); closed pipes are skipped; nothing else is transmitted *)
+Definition offer (m : pmsg) (x : spipe) : spipe :=
+  if sp_closed x then x
+  else if negb (sp_busy x) then mkSpipe (sp_q x) true [m] false
+  else if length (sp_q x) <? SURV_SEND_BUF then mkSpipe (sp_q x ++ [m]) true (sp_held x) false
+  else x.
+Theorem surv_fanout_each_pipe_once m l :
+  fst (fanout m l) = map (fun px => (fst px, offer m (snd px))) l /\
+  snd (fanout m l) = map (fun px => TranSend (fst px) m) (filter (fun px => negb (sp_closed (snd px)) && negb (sp_busy (snd px))) l).
+Proof.
+  induction l as [|[p x] l [IH1 IH2]]; cbn [fanout map filter fst snd]; [auto|].
+  destruct (fanout m l) as [r o]. cbn [fst snd] in *. subst. unfold offer.
+  destruct (sp_closed x); cbn [negb andb fst snd]; [auto|].
+  destruct (sp_busy x); cbn [negb andb fst snd map]; [|auto].
+  destruct (length (sp_q x) <? SURV_SEND_BUF); cbn [fst snd]; auto.
+Qed.
+
+(* ================================================================ non-blocking receive *)
+Definition surv_recv_would_wait (s : surv) (c : option ctxid) : bool :=
+  match get_ctx s c with
+  | Some cx => negb (N.eqb (sc_survey cx) 0 || (sc_expire cx <=? Z.of_N (sv_now s))%Z) && isnil (sc_lmq cx)
+  | None => false
+  end.
+(* with the repair: completes in the same step, never queues the aio; EAGAIN exactly when the blocking form
+   would have been queued, and then nothing changes *)
+Theorem surv_nb_recv_immediate s c a s' outs :
+  surv_step true s (PRecv c a true) = (s', outs) ->
+  exists rv x, outs = [Complete a rv x] /\
+    (rv = E_AGAIN <-> surv_recv_would_wait s c = true) /\ (rv = E_AGAIN -> s' = s /\ x = None) /\
+    (forall k cx', In (k, cx') (sv_ctxs s') -> exists k0 cx, In (k0, cx) (sv_ctxs s) /\ sc_rq cx' = sc_rq cx).
+Proof.
+  intros St. cbn [surv_step] in St. unfold surv_recv_would_wait, get_ctx.
+  destruct (kget (ckey c) (sv_ctxs s)) as [cx|] eqn:G.
+  - destruct (_ || _) eqn:D; cbn [negb andb].
+    + inversion St; subst. exists E_STATE, None. repeat split; try discriminate. intros k cx' H. eauto.
+    + destruct (sc_lmq cx) as [|m r] eqn:L; cbn [isnil andb] in *.
+      * inversion St; subst. exists E_AGAIN, None. repeat split; auto. intros k cx' H. eauto.
+      * assert (O: outs = [Complete a E_OK (Some m)] /\ sv_ctxs s' = kset (ckey c) (mkSctx (sc_survey cx) r (sc_rq cx) (sc_stime cx) (sc_expire cx)) (sv_ctxs s)).
+        { destruct (isnil r && (ckey c =? 0)%N); inversion St; subst; auto. }
+        destruct O as [-> O2]. exists E_OK, (Some m). repeat split; try discriminate.
+        intros k cx' H. rewrite O2 in H. apply in_kset_weak in H as [->|H]; [|eauto].
+        exists (ckey c), cx. split; [now apply kget_in|reflexivity].
+  - inversion St; subst. exists E_CLOSED, None. repeat split; try discriminate. intros k cx' H. eauto.
+Qed.
+(* the pinned source (clamp test `timeout < 1`): a NONBLOCK receive with a live survey and no response is
+   queued like a blocking one -- no completion in the step *)
+Theorem surv_nb_recv_immediate_refuted :
+  exists s a, snd (surv_step false s (PRecv None a true)) = [Arm 1000%N] /\
+              exists cx, kget 0%N (sv_ctxs (fst (surv_step false s (PRecv None a true)))) = Some cx /\ sc_rq cx = [a].
+Proof.
+  exists (fst (surv_step false surv_init (PSend None 1%N false (mkPmsg [] [7%N])))), 2%N.
+  split; [vm_compute; reflexivity|]. eexists. split; vm_compute; reflexivity.
+Qed.
